@@ -357,8 +357,12 @@ func stratum(in *Instance) string {
 			switch {
 			case f.Line == 0:
 				s += "-noline"
-			case suiteStartsAt(in, f):
-				s += "-suiteline"
+			default:
+				if hit, outer := suiteStartsAt(in, f); hit && outer {
+					s += "-outersuiteline"
+				} else if hit {
+					s += "-suiteline"
+				}
 			}
 			if f.File == "*" {
 				s += "-glob"
@@ -373,15 +377,32 @@ func stratum(in *Instance) string {
 	return fmt.Sprintf("%v/%s/files=%d", k, sel, len(in.Files))
 }
 
-func suiteStartsAt(in *Instance, f Filter) bool {
+// suiteStartsAt reports whether the path filter's line is the first line of a suite, and if so
+// whether that suite contains a nested suite ("outer").
+func suiteStartsAt(in *Instance, f Filter) (bool, bool) {
+	hit, outer := false, false
 	for fi, toks := range in.Files {
 		if f.File != "*" && f.File != string(rune('a'+fi)) {
 			continue
 		}
 		line := 2
-		for _, t := range toks {
+		for i, t := range toks {
 			if t == "D" && line == f.Line {
-				return true
+				hit = true
+				depth := 0
+				for _, u := range toks[i+1:] {
+					if u == "D" {
+						if depth == 0 {
+							outer = true
+						}
+						depth++
+					} else if u == "E" {
+						if depth == 0 {
+							break
+						}
+						depth--
+					}
+				}
 			}
 			if t == "C" {
 				line += 3
@@ -390,7 +411,7 @@ func suiteStartsAt(in *Instance, f Filter) bool {
 			}
 		}
 	}
-	return false
+	return hit, outer
 }
 
 // predict runs the replay model on the instances: the prediction of each under the intended runner
